@@ -11,6 +11,19 @@ Streams (all generated from common.case_rng, one PRNG per case):
           tied directions: every cost argument after a collapse and the final solution satisfy the relation,
           state() masks before/after every Collapse, never reported twice, Solve returns; the sequence of
           reports is replayed through the model of the collapse loop (Lean bound `collapse_loop_terminates`)
+  apply   detector -> constraint, as Collapse() does it: the REAL collapse_as on a history whose close pairs form a
+          generated NON-TRANSITIVE graph (single pair, chain {(i,k),(j,k)} with the shared parameter at the lowest /
+          middle / highest index, stars, paths, trees, cliques, several components, random), then the REAL
+          impose_as(<that very set>, False) and tools.connected on a parameter vector; groups and result compared
+          bit-exactly with Model/CollapseApply.lean (pairs in the real iteration order of the set); monitor: every
+          reported pair exactly equal, each component set to one of its members' own values, every other parameter
+          untouched (theorems applied_pairs_equal_partial / applied_component_equal_partial / applied_frame; the
+          hypothesis noBridge is evaluated by the model on every case)
+  chain   real solvers on objectives whose optimum has a chain of parameters (consecutive members within the
+          tolerance of each other, members two apart not): collapsed in ONE step (converge first, then install
+          Or(CollapseAs, stop) and Solve again; Powell also in one phase) or across steps; same monitors as `solver`
+A failing relation is put into a recorded class (F21 overwritten by a later-running collapse constraint, F26 groups of
+tools.connected not merged) only when the composition of the UNCHANGED code itself breaks it (predict_composed).
 """
 import sys, time, json, math, random as _random
 import common
@@ -45,6 +58,15 @@ THEOREMS = [
     "MysticVerif.C11.not_reported_again",
     "MysticVerif.C11.collapse_chain_bounded",
     "MysticVerif.C11.collapse_loop_terminates",
+    "MysticVerif.C11.connected_pair_in_group",
+    "MysticVerif.C11.applied_length",
+    "MysticVerif.C11.applied_pairs_equal_partial",
+    "MysticVerif.C11.applied_component_equal_partial",
+    "MysticVerif.C11.applied_frame",
+    "MysticVerif.C11.oneComponentOrder_noBridge",
+    "MysticVerif.C11.star_noBridge",
+    "MysticVerif.C11.applied_star_equal",
+    "MysticVerif.C11.applied_bridged_pair_not_tied_witness",
 ]
 
 ERR = {"ValueError": "value", "TypeError": "type", "IndexError": "index"}
@@ -963,7 +985,7 @@ def solver_case(rng, hist, big=False):
         best = [float(v) for v in s.bestSolution]
         r = orig(disp)
         events.append({"ncalls": n, "collapse": r, "before": before, "after": mt.state(s._termination), "best": best,
-                       "gens": s.generations})
+                       "gens": s.generations, "orders": pair_orders(r)})
         return r
     s.Collapse = wrapped
     t0 = time.time()
@@ -982,6 +1004,19 @@ def solver_case(rng, hist, big=False):
         findings.append((key, "Solve raised %s: %s" % (type(e).__name__, e)))
         return {"findings": findings, "tag": "solver:%s:%s:raised" % (solver_name, scen), "reports": [], "ncollapses": 0,
                 "args": {"solver": solver_name, "scenario": scen, "seed": seed, "trace": traceback.format_exc()[-800:]}}
+    res = analyse_run(s, solver_name, nd, calls, events, findings)
+    return {"findings": findings, "tag": "solver:%s:%s:%d-collapses" % (solver_name, scen, min(res["ncoll"], 3)),
+            "reports": res["reports"], "ncollapses": res["ncoll"], "universe": res["universe"],
+            "args": {"solver": solver_name, "scenario": scen, "nd": nd, "seed": seed, "c": c, "i0": i0, "i1": i1, "tol": tol, "g": g,
+                     "stop": stop, "final": res["final"], "relations": res["rels"], "ncalls": len(calls),
+                     "events": [{"ncalls": e["ncalls"], "collapse": repr(e["collapse"]), "gens": e["gens"]} for e in events]}}
+
+
+def analyse_run(s, solver_name, nd, calls, events, findings):
+    """the solver-level clauses on one finished run: relations imposed by every applied collapse, checked on every
+    later cost argument and on the final solution; state() masks grow by what was applied; nothing reported twice;
+    Solve returned terminated.  Appends (class key, text) to `findings`."""
+    from mystic import termination as mt
     # ---- relations imposed so far, checked on every later cost argument and on the final solution
     rels = []       # dicts: kind 'fixed' (i, value) | 'pair' (i, j: x[j] == x[i]) | 'dist' (i, j, d: ||x[j]-x[i]| - d| <= tol), ev
     reports = []
@@ -993,12 +1028,15 @@ def solver_case(rng, hist, big=False):
         for b in range(a + 1, nd):
             pair_code[(a, b)] = nd + len(pair_code)
     stopped = False
+    apps = []       # what every Collapse() installed, in the order the code composes it (impose_at before impose_as)
     for ei, e in enumerate(events):
         coll = e["collapse"]
         if not coll:
             continue
         ncoll += 1
         rep = []
+        ops_at = []; ops_as = []
+        apps.append({"ev": ei, "ncalls": e["ncalls"], "ops_at": ops_at, "ops_as": ops_as})
         for key, val in coll.items():
             kind = key.split()[0]
             kw = e["before"].get(key)
@@ -1021,11 +1059,17 @@ def solver_case(rng, hist, big=False):
                     t = kw.get("target")
                     v = e["best"][int(item)] if t is None else (t[int(item)] if isinstance(t, (list, tuple)) else t)
                     rels.append({"kind": "fixed", "i": int(item), "v": float(v), "ev": ei})
+                    ops_at.append(("at", int(item), float(v)))
                 else:
                     i, j = int(item[0]), int(item[1])
                     if kw.get("offset") in (None, False):
-                        rels.append({"kind": "pair", "i": i, "j": j, "ev": ei})
+                        order = (e.get("orders") or {}).get(key) or [tuple(int(v) for v in it) for it in val]
+                        rels.append({"kind": "pair", "i": i, "j": j, "ev": ei, "order": order,
+                                     "untied_by_connected": (i, j) in py_untied(order)})
+                        if ("as", order) not in ops_as:
+                            ops_as.append(("as", order))
                     else:
+                        ops_as.append(("dist",))
                         rels.append({"kind": "dist", "i": i, "j": j, "d": abs(e["best"][j] - e["best"][i]), "tol": float(kw["tolerance"]), "ev": ei})
         reports.append(rep)
         if stopped:
@@ -1033,7 +1077,8 @@ def solver_case(rng, hist, big=False):
         lo = e["ncalls"]
         v = first_violation(calls[lo:], rels)
         if v is not None:
-            findings.append(viol_key("solver/evaluated-point", v, rels, "point #%d evaluated after collapse #%d" % (v[0], ncoll)))
+            live = [a for a in apps if a["ncalls"] <= lo + v[0]]
+            findings.append(viol_key("solver/evaluated-point", v, rels, "point #%d evaluated after collapse #%d" % (v[0], ncoll), live, nd))
             stopped = True
     final = [float(v) for v in s.bestSolution]
     shown = final
@@ -1044,7 +1089,11 @@ def solver_case(rng, hist, big=False):
     if ncoll:
         v = first_violation([shown], rels)
         if v is not None:
-            key, what = viol_key("solver/final-solution", v, rels, "final solution")
+            # the collapse constraints that were installed when the reported point was evaluated (a best point found
+            # between two collapses survives, F25): the class of the failure is decided for THAT composition
+            occ = [i for i, xx in enumerate(calls) if xx == final] if solver_name != "NM" else []
+            live = [a for a in apps if a["ncalls"] <= occ[-1]] if occ else apps
+            key, what = viol_key("solver/final-solution", v, rels, "final solution", live, nd)
             lo = events[v[1]["ev"]]["ncalls"]
             if solver_name != "NM" and final in calls[:lo] and final not in calls[lo:]:
                 # the reported best was found BEFORE the collapse that imposed the relation and never replaced
@@ -1056,11 +1105,9 @@ def solver_case(rng, hist, big=False):
     msg = s.Terminated(info=True)
     if not msg:
         findings.append(("solver/solve-returned-unterminated", "Solve returned but Terminated() is false"))
-    return {"findings": findings, "tag": "solver:%s:%s:%d-collapses" % (solver_name, scen, min(ncoll, 3)), "reports": reports,
-            "ncollapses": ncoll, "universe": universe,
-            "args": {"solver": solver_name, "scenario": scen, "nd": nd, "seed": seed, "c": c, "i0": i0, "i1": i1, "tol": tol, "g": g,
-                     "stop": stop, "final": final, "relations": rels, "ncalls": len(calls),
-                     "events": [{"ncalls": e["ncalls"], "collapse": repr(e["collapse"]), "gens": e["gens"]} for e in events]}}
+    return {"reports": reports, "ncoll": ncoll, "universe": universe, "rels": rels, "final": final}
+
+
 
 
 def rel_holds(r, x):
@@ -1118,19 +1165,54 @@ def conflicted(rels):
     return bad
 
 
-def viol_key(prefix, v, rels, where):
+def predict_composed(apps, n):
+    """what the composed collapse constraints of the UNCHANGED code do to a vector of distinct symbols: `Collapse` chains
+    the new decorators outside the existing constraints (abstract_solver.py l.852), so the newest round runs first and
+    the oldest last; inside a round impose_at runs before impose_as (l.845-846); impose_as ties the groups of
+    tools.connected (py_connected, compared with the Lean model in stream `apply`).  None when an offset collapse is
+    involved (x_j = x_i + 1 is not followed symbolically)."""
+    x = [("s", i) for i in range(n)]
+    for a in sorted(apps, key=lambda a: -a["ev"]):
+        for op in a["ops_at"] + a["ops_as"]:
+            if op[0] == "dist":
+                return None
+            if op[0] == "at":
+                x[op[1]] = ("c", op[2])
+            else:
+                for k, mem in py_connected(op[1]):
+                    for m in mem:
+                        if k < n and m < n:
+                            x[m] = x[k]
+    return x
+
+
+def viol_key(prefix, v, rels, where, apps=None, nd=None):
+    """class key of a violated relation.  The two recorded mechanisms (F21: a collapse constraint that runs later in the
+    composed function rewrites the parameters; F26: tools.connected left two groups unmerged) are recognised by
+    running the composition of the unchanged code on a vector of distinct symbols: only a relation that this
+    composition itself breaks falls into a recorded class; anything else is a new failure."""
     n, r, x = v
     a = rels.index(r)
     if r["kind"] == "dist":
         return (prefix + "/offset-pair-distance-not-kept",
                 "%s: CollapseAs(offset=True) tracked |x[%d]-x[%d]| = %r, the applied constraint gives %r (x=%r)" % (
                     where, r["j"], r["i"], r["d"], abs(x[r["j"]] - x[r["i"]]), x))
-    if a in conflicted(rels):
+    pred = predict_composed(apps, nd) if apps is not None else None
+    if pred is not None:
+        broken = (pred[r["i"]] != ("c", r["v"])) if r["kind"] == "fixed" else (pred[r["i"]] != pred[r["j"]])
+    else:
+        broken = (a in conflicted(rels)) or (r["kind"] == "pair" and r.get("untied_by_connected"))
+    if broken and r["kind"] == "pair" and r.get("untied_by_connected"):
+        return (prefix + "/pair-not-equal/connected-groups-not-merged",
+                "%s: %s violated at x=%r; the pairs of this collapse were iterated as %r and tools.connected built the groups %r: "
+                "a pair joined two existing groups, which are never merged" % (where, rel_text(r), x, r["order"], py_connected(r["order"])))
+    if broken:
         return (prefix + "/relation-overwritten-by-another-collapse-constraint",
                 "%s: %s violated at x=%r; another collapse constraint runs after it in the composed constraints function and rewrites its parameters (relations %r)" % (
                     where, rel_text(r), x, [rel_text(q) + "@%d" % q["ev"] for q in rels]))
     key = "/fixed-parameter-not-at-target" if r["kind"] == "fixed" else "/pair-not-equal"
-    return (prefix + key, "%s: %s violated at x=%r (relations %r)" % (where, rel_text(r), x, [rel_text(q) + "@%d" % q["ev"] for q in rels]))
+    return (prefix + key, "%s: %s violated at x=%r although the composed collapse constraints keep it for every input (relations %r)" % (
+        where, rel_text(r), x, [rel_text(q) + "@%d" % q["ev"] for q in rels]))
 
 
 def rel_text(r):
@@ -1139,6 +1221,426 @@ def rel_text(r):
     if r["kind"] == "pair":
         return "x[%d]==x[%d]" % (r["j"], r["i"])
     return "|x[%d]-x[%d]|==%r" % (r["j"], r["i"], r["d"])
+
+
+# ------------------------------------------------------------------ applying a pair collapse (impose_as over connected)
+def pair_orders(collapses):
+    """{CollapseAs key: the pairs in the iteration order of the very set object that impose_as will iterate}"""
+    return {k: [tuple(int(v) for v in it) for it in val] for k, val in (collapses or {}).items() if k.startswith("CollapseAs")}
+
+
+def py_connected(order):
+    """plain transcription of tools.connected (tools.py l.770-791) of the unchanged tree.  Used ONLY to decide whether a
+    failing pair falls into the recorded class F26 (a pair joined two existing groups); it is compared with the Lean
+    model on every case of stream `apply`."""
+    groups = []
+    for i, j in order:
+        found = False
+        for g in groups:
+            if i == g[0] or i in g[1]:
+                if j not in g[1]:
+                    g[1].append(j)
+                found = True; break
+            if j == g[0] or j in g[1]:
+                if i not in g[1]:
+                    g[1].append(i)
+                found = True; break
+        if not found:
+            groups.append([i, [j]])
+    return groups
+
+
+def py_untied(order):
+    """the pairs that connected + the tie phase leave unequal on a vector of distinct values"""
+    if not order:
+        return set()
+    x = list(range(1 + max(v for p in order for v in p)))
+    for k, mem in py_connected(order):
+        for m in mem:
+            x[m] = x[k]
+    return set(p for p in order if x[p[0]] != x[p[1]])
+
+
+def py_bridged(order):
+    """independent reading of `noBridge`: some pair joins two components that both exist when it is processed"""
+    comp = {}
+
+    def find(a):
+        while comp[a] != a:
+            a = comp[a]
+        return a
+    for i, j in order:
+        if i in comp and j in comp:
+            if find(i) != find(j):
+                return True
+        elif i in comp:
+            comp[j] = find(i)
+        elif j in comp:
+            comp[i] = find(j)
+        else:
+            comp[i] = i; comp[j] = i
+    return False
+
+
+def components(pairs):
+    adj = {}
+    for a, b in pairs:
+        adj.setdefault(a, set()).add(b); adj.setdefault(b, set()).add(a)
+    seen = set(); out = []
+    for a in sorted(adj):
+        if a in seen:
+            continue
+        c = set(); todo = [a]
+        while todo:
+            v = todo.pop()
+            if v in c:
+                continue
+            c.add(v); todo += list(adj[v] - c)
+        seen |= c; out.append(c)
+    return out
+
+
+def nontransitive(pairs):
+    """two pairs share a parameter while their other members are not a pair (a chain collapse)"""
+    P = set(tuple(sorted(p)) for p in pairs)
+    for a in P:
+        for b in P:
+            if a < b and len(set(a) & set(b)) == 1:
+                o = tuple(sorted(set(a) ^ set(b)))
+                if o not in P:
+                    return True
+    return False
+
+
+def shape_class(n, E):
+    """coverage class of a pair set (as collapse_as reports it: i<j)"""
+    if not E:
+        return "empty"
+    comps = components(E)
+    deg = {}
+    for a, b in E:
+        deg[a] = deg.get(a, 0) + 1; deg[b] = deg.get(b, 0) + 1
+    if len(comps) > 1:
+        return "%d-components%s" % (min(len(comps), 3), "+chain" if nontransitive(E) else "")
+    m = len(comps[0])
+    if len(E) == 1:
+        return "single-pair"
+    if len(E) == m * (m - 1) // 2:
+        return "all-mutually-tied"
+    if len(E) == m - 1:
+        hub = [v for v in deg if deg[v] == m - 1]
+        if hub:
+            c = hub[0]; others = sorted(comps[0] - {c})
+            pos = "lowest" if c < others[0] else ("highest" if c > others[-1] else "middle")
+            return "%s:shared-%s" % ("chain-2" if m == 3 else "star-%d" % min(m - 1, 4), pos)
+        if max(deg.values()) == 2:
+            return "path-%d" % min(m - 1, 5)
+        return "tree"
+    return "cyclic-not-complete"
+
+
+def gen_pairgraph(rng, n):
+    idx = list(range(n)); rng.shuffle(idx)
+    E = set()
+
+    def add(a, b):
+        E.add((min(a, b), max(a, b)))
+    kind = rng.choice(["pair", "chain2", "chain2", "star", "path", "path", "path", "tree", "clique", "two", "random"])
+    if n < 3:
+        kind = "pair"
+    if kind == "two" and n < 4:
+        kind = "chain2"
+    if kind == "pair":
+        add(idx[0], idx[1])
+    elif kind == "chain2":
+        add(idx[0], idx[2]); add(idx[1], idx[2])
+    elif kind == "star":
+        for a in idx[1:1 + rng.randint(2, n - 1)]:
+            add(idx[0], a)
+    elif kind == "path":
+        L = rng.randint(2, n - 1)
+        for a, b in zip(idx[:L], idx[1:L + 1]):
+            add(a, b)
+    elif kind == "tree":
+        m = rng.randint(3, n)
+        for t in range(1, m):
+            add(idx[t], idx[rng.randrange(t)])
+    elif kind == "clique":
+        m = rng.randint(3, min(n, 4))
+        for a in range(m):
+            for b in range(a + 1, m):
+                add(idx[a], idx[b])
+    elif kind == "two":
+        k = rng.randint(2, n - 2)
+        for part in (idx[:k], idx[k:]):
+            for a, b in zip(part, part[1:]):
+                if rng.random() < 0.85 or not E:
+                    add(a, b)
+        if len(idx[k:]) >= 2 and not any(set(e) & set(idx[k:]) for e in E):
+            add(idx[k], idx[k + 1])
+    else:
+        for a in range(n):
+            for b in range(a + 1, n):
+                if rng.random() < 0.35:
+                    add(a, b)
+        if not E:
+            add(idx[0], idx[1])
+    return kind, E
+
+
+def realize_history(rng, n, E, tol):
+    """a history on which max_t |x_i - x_j| <= tol holds exactly for the pairs of E (closeness that is NOT transitive):
+    all members sit at one base value, and every non-pair gets a record in which its two members are moved apart"""
+    nodes = sorted(set(v for e in E for v in e))
+    base = dyadic(rng, -2, 2, 16)
+    row0 = [base if i in nodes else base + 8.0 * (i + 1) for i in range(n)]
+    rows = [list(row0)] * rng.choice([1, 1, 2])
+    rows = [list(r) for r in rows]
+    for ai, a in enumerate(nodes):
+        for b in nodes[ai + 1:]:
+            if (a, b) in E:
+                continue
+            sep = rng.choice([1.5 * tol, 2.0 * tol, tol + tol * 2.0 ** -20])     # > tol; halves <= tol (2*tol: a tie with tol)
+            sg = rng.choice([1.0, -1.0])
+            r = list(row0); r[a] += sg * sep / 2; r[b] -= sg * sep / 2
+            rows.append(r)
+    rng.shuffle(rows)
+    return rows
+
+
+def apply_case(rng, hist):
+    """detector -> constraint, as `Collapse()` does it: the REAL collapse_as on a history whose close pairs form a
+    generated graph (chains / stars / paths / trees / cliques / several components, in every index order), then the
+    REAL impose_as(<that very set>, False) on a parameter vector; both compared with the model, and the collapsed
+    relation (every reported pair exactly equal, every other parameter untouched) evaluated on the result"""
+    import numpy
+    from mystic import collapse as ct, constraints as cn, tools as to
+    n = rng.choice([2, 3, 3, 4, 4, 5, 5, 6, 7])
+    kind, E = gen_pairgraph(rng, n)
+    tol = rng.choice([2.0 ** -10, 2.0 ** -10, 2.0 ** -7, 0.25])
+    rows = realize_history(rng, n, E, tol)
+    T = len(rows)
+    g = rng.choice([None, T, T, T + 3, 0, 50] + ([max(1, T - 1), max(1, T // 2)] if rng.random() < 0.3 else []))
+    out = {"findings": [], "corr": []}
+    mon = make_monitor(rows)
+    r = call(lambda: ct.collapse_as(mon, False, tol, g, None))
+    line_as = "C11 as (hist %s) (offset false) (tol %s) (gen %s) (mask none)" % (fll(rows), f2b(tol), gstr(g))
+    out["lines"] = [line_as]
+    out["args"] = {"hist": rows, "tolerance": tol, "generations": g, "generated_pairs": sorted(E), "generator": kind}
+    if r[0] != "ok":
+        out["findings"].append(("collapse_as/raises-on-valid-input", "collapse_as raised %s on a documented input" % (r[1],)))
+        out["impl_as"] = r[:2]; out["tag"] = "apply:detector-raised"; out["S"] = None
+        return out
+    S = r[1]
+    out["impl_as"] = ("ok", canon_as(S))
+    w = ref_window(rows, g) if (g is None or g >= 1) else rows
+    want = sorted((i, j) for i in range(n) for j in range(i + 1, n) if ref_pairstat(w, i, j, False) <= tol)
+    if want != canon_as(S):
+        out["findings"].append(("collapse_as/not-per-definition", "collapse_as returned %r, the definition gives %r" % (canon_as(S), want)))
+    if (g is None or g == 0 or g >= T) and want != sorted(E):
+        raise RuntimeError("generator: history does not realize the pair set %r (definition gives %r)" % (sorted(E), want))
+    order = [(int(a), int(b)) for a, b in S]
+    out["order"] = order
+    out["S"] = S
+    # ---- the parameter vector
+    vals = rng.sample(range(-40, 41), n)
+    x = [v / 8.0 + (0.0 if rng.random() < 0.8 else 2.0 ** -30) for v in vals]
+    if rng.random() < 0.15 and n >= 2:
+        x[rng.randrange(n)] = x[rng.randrange(n)]            # an accidental tie in the input
+    container = rng.choice(["ndarray", "ndarray", "list"])
+    xin = numpy.array(x) if container == "ndarray" else list(x)
+    con = cn.impose_as(S, False)(lambda v: v)            # exactly what Collapse() builds (abstract_solver.py l.845)
+    ry = call(lambda: [float(v) for v in con(xin)])
+    rg = call(lambda: [(int(k), sorted(int(m) for m in v)) for k, v in to.connected(S).items()])
+    out["lines"].append("C11 tie (pairs (%s)) (x %s)" % (" ".join("(%d %d)" % p for p in order), fl(x)))
+    out["impl_tie"] = (ry[:2], rg[:2])
+    out["args"].update({"pairs_in_iteration_order": order, "x": x, "container": container,
+                        "impose_as_result": ry[1] if ry[0] == "ok" else repr(ry[1:]), "connected": repr(rg[1])})
+    out["shape"] = shape_class(n, set(order))
+    out["bridged"] = py_bridged(order)
+    if [float(v) for v in xin] != x:
+        out["findings"].append(("apply/input-modified", "impose_as modified its argument in place: %r -> %r" % (x, list(xin))))
+    # ---- monitor: the collapsed relation on the implementation's result
+    if ry[0] != "ok":
+        out["findings"].append(("apply/raises", "impose_as(%r, False)(x) raised %s: %s" % (order, ry[1], ry[2])))
+    else:
+        y = ry[1]
+        bad = [p for p in order if y[p[0]] != y[p[1]]]
+        if len(y) != n:
+            out["findings"].append(("apply/length-changed", "impose_as returned %d values for %d parameters" % (len(y), n)))
+        elif bad:
+            unt = py_untied(order)
+            known = [p for p in bad if p in unt]
+            key = "apply/pair-not-equal/connected-groups-not-merged" if len(known) == len(bad) else "apply/pair-not-equal"
+            out["findings"].append((key, "collapse_as reported the pairs %r (iteration order); after impose_as(pairs, False) the point %r "
+                                         "became %r: x[%d] != x[%d] (connected: %r)" % (order, x, y, bad[0][0], bad[0][1], rg[1])))
+        else:
+            touched = set(v for p in order for v in p)
+            fr = [i for i in range(n) if i not in touched and f2b(y[i]) != f2b(x[i])]
+            if fr:
+                out["findings"].append(("apply/untied-parameter-changed", "parameter %d is in no collapsed pair but changed: %r -> %r (pairs %r)" % (fr[0], x, y, order)))
+            comp_bad = [c for c in components(order) if len(set(f2b(y[i]) for i in c)) != 1 or not any(f2b(y[min(c)]) == f2b(x[i]) for i in c)]
+            if comp_bad:
+                out["findings"].append(("apply/component-value", "the component %r is not set to one of its members' own values: %r -> %r" % (sorted(comp_bad[0]), x, y)))
+    out["tag"] = "apply:%s:%s" % (out["shape"], "bridging-order" if out["bridged"] else "ok-order")
+    return out
+
+
+def judge_apply(c, replies, add, hist):
+    """compare one `apply` case with the two model replies"""
+    case = {"id": c["id"], "request": c["lines"], "args": c["args"], "impl": [c.get("impl_as"), c.get("impl_tie")], "model": replies}
+    ras = parse_reply(replies[0])
+    if ras[0] == "bad-op":
+        raise RuntimeError("driver answered bad-op for %s" % c["lines"][0])
+    model = ("err", ras[1]) if ras[0] == "err" else ("ok", [(int(a), int(b)) for a, b in ras[1]["pairs"]])
+    if tuple(model) != tuple(c["impl_as"]):
+        add("correspondence", "collapse_as/diverges", "model %r, implementation %r" % (model, c["impl_as"]), case)
+    if len(replies) > 1:
+        rt = parse_reply(replies[1])
+        if rt[0] != "ok":
+            raise RuntimeError("driver answered %r for %s" % (replies[1], c["lines"][1]))
+        mgroups = [(int(gk), sorted(int(m) for m in gm)) for gk, gm in rt[1]["groups"]]
+        my = [t for t in rt[1]["y"]]
+        (iy, ig) = c["impl_tie"]
+        if ig != ("ok", mgroups):
+            add("correspondence", "connected/diverges", "pairs %r: model groups %r, tools.connected %r" % (c["order"], mgroups, ig), case)
+        if iy[0] != "ok" or [f2b(v) for v in iy[1]] != my:
+            add("correspondence", "impose_as/diverges", "pairs %r on x=%r: model %r, impose_as %r" % (
+                c["order"], c["args"]["x"], [common.b2f(t) for t in my], iy), case)
+        # the harness's own transcription / reading of the hypothesis agree with the model
+        pg = [(k, sorted(m)) for k, m in py_connected(c["order"])]
+        if pg != mgroups or (rt[1]["nobridge"] == "true") == c["bridged"]:
+            add("correspondence", "harness-classifier/diverges", "pairs %r: model groups %r nobridge=%s, harness groups %r bridged=%r" % (
+                c["order"], mgroups, rt[1]["nobridge"], pg, c["bridged"]), case)
+        # theorem applied_pairs_equal_partial, on the model's own output
+        if rt[1]["nobridge"] == "true" and any(my[a] != my[b] for a, b in c["order"]):
+            add("correspondence", "impose_as/model-contradicts-theorem", "noBridge holds but the model leaves a pair untied: %r" % (replies[1],), case)
+        if rt[1]["grown"] == "true" and rt[1]["nobridge"] != "true":
+            add("correspondence", "impose_as/model-contradicts-theorem", "oneComponentOrder without noBridge: %r" % (replies[1],), case)
+        if rt[1]["grown"] == "true":
+            bump(hist, "apply:one-component-grown-order")
+    bump(hist, c["tag"])
+    for key, what in c["findings"]:
+        add("monitor", key, what, case)
+    return case
+
+
+# ------------------------------------------------------------------ solver level: chain collapses
+def chain_case(rng, hist, big=False):
+    """real solvers on an objective whose optimum has a CHAIN of parameters: consecutive members of the chain are
+    within the collapse tolerance of each other, members two apart are not (non-transitive closeness).  `one-phase`:
+    Solve with Or(CollapseAs, stop) from a random start (pairs are detected as the solver converges: across steps for
+    DE / Nelder-Mead, mostly in one step for Powell).  `converge-first`: Solve with a plain stop condition, then install
+    Or(CollapseAs, stop) and Solve again: the whole chain is detected in ONE step."""
+    import numpy
+    from mystic import solvers as ms, termination as mt
+    from mystic.monitors import Monitor
+    nd = rng.choice([3, 4, 4, 5, 6])
+    solver_name = rng.choice(["DE", "DE2", "NM", "Powell", "Powell"])
+    mode = rng.choice(["one-phase", "converge-first", "converge-first"])
+    shape = rng.choice(["path", "path", "path", "fork"])
+    m = rng.randint(3, min(nd, 5))
+    idx = list(range(nd)); rng.shuffle(idx)
+    chain = idx[:m]
+    tol = rng.choice([2.0 ** -10, 2.0 ** -8])
+    g = rng.choice([4, 6])
+    base = dyadic(rng, -2, 2, 4)
+    opt = [0.0] * nd
+    far = list(range(1, nd + 1)); rng.shuffle(far)
+    for t, k in enumerate(idx):
+        opt[k] = base + rng.choice([-1.0, 1.0]) * (0.5 + far[t] * 0.75)
+    step = 0.75 * tol
+    if shape == "path":
+        for t, k in enumerate(chain):
+            opt[k] = base + t * step
+    else:       # a centre with arms on both sides (arms on the same side coincide: mutually tied)
+        opt[chain[0]] = base
+        sides = [1.0, -1.0] + [rng.choice([1.0, -1.0]) for _ in range(m - 3)]
+        for k, sg in zip(chain[1:], sides):
+            opt[k] = base + sg * step
+    wts = [rng.choice([1.0, 1.0, 4.0, 0.25]) for _ in range(nd)]
+
+    def cost(x):
+        return sum(wts[k] * (x[k] - opt[k]) ** 2 for k in range(nd))
+    expected = sorted((min(a, b), max(a, b)) for ai, a in enumerate(chain) for b in chain[ai + 1:] if abs(opt[a] - opt[b]) <= tol)
+    stop = rng.choice(["vtr", "vtr", "cog", "ncog"])
+    stopc = {"cog": mt.ChangeOverGeneration(1e-13, 5 * g), "vtr": mt.VTR(1e-30), "ncog": mt.NormalizedChangeOverGeneration(1e-10, 4 * g)}[stop]
+    order = [mt.CollapseAs(False, tol, g), stopc]
+    rng.shuffle(order)
+    term = mt.Or(*order)
+    seed = rng.randrange(2 ** 31)
+    _random.seed(seed); numpy.random.seed(seed)
+    calls = []
+    events = []
+
+    def cost_fn(x):
+        calls.append([float(v) for v in x])
+        return cost(x)
+    if solver_name in ("DE", "DE2"):
+        s = (ms.DifferentialEvolutionSolver if solver_name == "DE" else ms.DifferentialEvolutionSolver2)(nd, rng.choice([10, 16]))
+    elif solver_name == "NM":
+        s = ms.NelderMeadSimplexSolver(nd)
+    else:
+        s = ms.PowellDirectionalSolver(nd)
+    s.SetRandomInitialPoints([-4.0] * nd, [4.0] * nd)
+    s.SetGenerationMonitor(Monitor())
+    orig = s.Collapse
+    universe0 = nd + nd * (nd - 1) // 2
+
+    def wrapped(disp=False):
+        if len(events) > universe0 + 2:
+            raise CollapseLoopError("Collapse() called %d times for %d indices + pairs" % (len(events) + 1, universe0))
+        before = mt.state(s._termination)
+        n = len(calls)
+        best = [float(v) for v in s.bestSolution]
+        r = orig(disp)
+        events.append({"ncalls": n, "collapse": r, "before": before, "after": mt.state(s._termination), "best": best,
+                       "gens": s.generations, "orders": pair_orders(r)})
+        return r
+    s.Collapse = wrapped
+    findings = []
+    args = {"solver": solver_name, "mode": mode, "shape": shape, "nd": nd, "chain": chain, "opt": opt, "weights": wts, "tol": tol, "g": g,
+            "stop": stop, "seed": seed, "expected_pairs": expected, "cost": "sum(w[k]*(x[k]-opt[k])**2)"}
+    converged = None
+    try:
+        if mode == "converge-first":
+            g1 = {"DE": 500, "DE2": 500, "NM": 900, "Powell": 12}[solver_name]
+            s.SetEvaluationLimits(generations=g1)
+            s.Solve(cost_fn, mt.VTR(1e-13))
+            x1 = [float(v) for v in s.bestSolution]
+            converged = max(abs(a - b) for a, b in zip(x1, opt)) <= tol / 16
+            args["phase1"] = {"generations": s.generations, "best": x1, "converged": converged}
+            s.SetEvaluationLimits(generations=s.generations + ((60 if big else 30) if solver_name != "Powell" else 8))
+            s.Solve(cost_fn, term)
+        else:
+            s.SetEvaluationLimits(generations=(400 if big else 200) if solver_name != "Powell" else (40 if big else 20))
+            s.Solve(cost_fn, term)
+    except CollapseLoopError as e:
+        findings.append(("solver/collapse-loop-does-not-terminate", "%s (collapses: %r)" % (e, [repr(ev["collapse"])[:120] for ev in events[-3:]])))
+        return {"findings": findings, "tag": "chain:%s:%s:loop" % (solver_name, mode), "reports": [], "ncollapses": 0, "args": args}
+    except Exception as e:     # noqa
+        import traceback
+        args["trace"] = traceback.format_exc()[-800:]
+        findings.append(("solver/raises/%s/chain" % solver_name, "Solve raised %s: %s" % (type(e).__name__, e)))
+        return {"findings": findings, "tag": "chain:%s:%s:raised" % (solver_name, mode), "reports": [], "ncollapses": 0, "args": args}
+    res = analyse_run(s, solver_name, nd, calls, events, findings)
+    # ---- coverage class: was a non-transitive chain applied, in one step or across steps
+    per_event = [sorted(set(p for o in (e.get("orders") or {}).values() for p in o)) for e in events if e["collapse"]]
+    allp = [p for ev in per_event for p in ev]
+    if any(nontransitive(ev) for ev in per_event):
+        cov = "one-step-chain"
+        if any(py_bridged(o) for e in events for o in (e.get("orders") or {}).values()):
+            cov += "+bridging-order"
+    elif any(len(set(a) & set(b)) == 1 for i, ea in enumerate(per_event) for eb in per_event[i + 1:] for a in ea for b in eb):
+        cov = "across-steps-chain"
+    elif allp:
+        cov = "pairs-no-chain"
+    else:
+        cov = "no-collapse"
+    args.update({"final": res["final"], "relations": res["rels"], "ncalls": len(calls),
+                 "events": [{"ncalls": e["ncalls"], "collapse": repr(e["collapse"]), "orders": e.get("orders"), "gens": e["gens"]} for e in events]})
+    return {"findings": findings, "tag": "chain:%s:%s:%s" % (solver_name, mode, cov), "cov": cov, "reports": res["reports"],
+            "ncollapses": res["ncoll"], "universe": res["universe"], "args": args}
 
 
 # ------------------------------------------------------------------ shard
@@ -1239,7 +1741,7 @@ def run_shard(pid, seed, shard, ncases, tier, extra):
     for k in range(ns):
         rng = case_rng(PID + "/solver", seed, shard, k)
         c = solver_case(rng, hist, big=(tier == "thorough"))
-        case = {"id": {"stream": "solver", "seed": seed, "shard": shard, "k": k}, "args": c["args"]}
+        case = {"id": {"stream": "solver", "seed": seed, "shard": shard, "k": k, "tier": tier}, "args": c["args"]}
         evaluations += 1
         bump(hist, c["tag"])
         if c["ncollapses"]:
@@ -1259,6 +1761,47 @@ def run_shard(pid, seed, shard, ncases, tier, extra):
         if c["reports"]:
             looplines.append("C11 loop (n %d) (mask ()) (reports (%s))" % (c["universe"], " ".join(ints(r) for r in c["reports"])))
             loopcases.append((c, case))
+    # ---- solver level, chain collapses (own PRNG stream)
+    nc = (extra or {}).get("nchain", 0) if only in (None, "chain") else 0
+    todo = list(range(nc))
+    if isinstance(only, (list, tuple)) and only[1] == "chain":
+        todo = [only[2]]
+    for k in todo:
+        rng = case_rng(PID + "/chain", seed, shard, k)
+        c = chain_case(rng, hist, big=(tier == "thorough"))
+        case = {"id": {"stream": "chain", "seed": seed, "shard": shard, "k": k, "tier": tier}, "args": c["args"]}
+        evaluations += 1
+        bump(hist, c["tag"])
+        if c.get("cov") in ("one-step-chain", "one-step-chain+bridging-order", "across-steps-chain"):
+            nontrivial += 1
+        for key, what in c["findings"]:
+            add("monitor", key, what, case)
+        if c["reports"]:
+            looplines.append("C11 loop (n %d) (mask ()) (reports (%s))" % (c["universe"], " ".join(ints(r) for r in c["reports"])))
+            loopcases.append((c, case))
+    # ---- detector -> constraint (apply)
+    na = (extra or {}).get("napply", 0) if only in (None, "apply") else 0
+    todo = list(range(na))
+    if isinstance(only, (list, tuple)) and only[1] == "apply":
+        todo = [only[2]]
+    acases = []
+    alines = []
+    for k in todo:
+        rng = case_rng(PID + "/apply", seed, shard, k)
+        c = apply_case(rng, hist)
+        c["id"] = {"stream": "apply", "seed": seed, "shard": shard, "k": k}
+        acases.append(c); alines += c["lines"]
+    areplies = leandrv.run_driver(alines) if alines else []
+    pos = 0
+    for c in acases:
+        reps = areplies[pos:pos + len(c["lines"])]; pos += len(c["lines"])
+        evaluations += 1
+        lines += c["lines"]
+        case = judge_apply(c, reps, add, hist)
+        if c.get("order") and len(c["order"]) >= 2:
+            nontrivial += 1
+        if len(samples) < 3 and c.get("shape", "").startswith("chain-2"):
+            samples.append(case)
     for (c, case), rep in zip(loopcases, leandrv.run_driver(looplines)):
         r = parse_reply(rep)
         lines.append("loop")
@@ -1312,18 +1855,42 @@ def witnesses():
     r = parse_reply(rep)
     if r[0] != "ok" or [tuple(int(v) for v in t) for t in r[1]["hits"]] != hits:
         out.append(Finding("correspondence", "collapse_position/diverges", "witness: model %r, implementation %r" % (rep, hits), case))
+    # F26: a path of four parameters reported by collapse_as and applied by impose_as in a bridging iteration order
+    import numpy
+    from mystic import constraints as cn
+    tol = 2.0 ** -10
+    rows = [[0.0, 1.5 * tol, 2.25 * tol, 5.0, 0.75 * tol]] * 3
+    S = ct.collapse_as(make_monitor(rows), False, tol, 3, None)
+    order = [(int(a), int(b)) for a, b in S]
+    x = [10.0, 11.0, 12.0, 13.0, 14.0]
+    y = [float(v) for v in cn.impose_as(S, False)(lambda v: v)(numpy.array(x))]
+    line = "C11 tie (pairs (%s)) (x %s)" % (" ".join("(%d %d)" % p_ for p_ in order), fl(x))
+    rep = leandrv.run_driver([line])[0]
+    case = {"id": "witness", "request": line, "args": {"hist": rows, "tolerance": tol, "generations": 3, "pairs_in_iteration_order": order, "x": x},
+            "impl": y, "model": rep}
+    r = parse_reply(rep)
+    if r[0] != "ok" or list(r[1]["y"]) != [f2b(v) for v in y]:
+        out.append(Finding("correspondence", "impose_as/diverges", "witness: model %r, implementation %r" % (rep, y), case))
+    bad = [p_ for p_ in order if y[p_[0]] != y[p_[1]]]
+    if sorted(order) != [(0, 4), (1, 2), (1, 4)]:
+        out.append(Finding("monitor", "collapse_as/not-per-definition", "witness: collapse_as returned %r for the path 0-4-1-2" % (order,), case))
+    elif bad:
+        key = "apply/pair-not-equal/connected-groups-not-merged" if set(bad) <= py_untied(order) else "apply/pair-not-equal"
+        out.append(Finding("monitor", key, "collapse_as reported the path %r (iteration order); impose_as(pairs, False) turned %r into %r: x[%d] != x[%d]" % (
+            order, x, y, bad[0][0], bad[0][1]), case))
     return out
 
 
 def main(tier, seed):
     t0 = time.time()
     proof = framework.proof_stage(PID, MODULE, THEOREMS, tier)
-    nshards, per, nsolver = (16, 1000, 24) if tier == "quick" else (64, 6000, 150)
-    run = framework.run_shards("c11", "run_shard", PID, seed, nshards, per, tier, extra={"nsolver": nsolver})
+    nshards, per, nsolver, nchain, napply = (16, 1000, 24, 20, 600) if tier == "quick" else (64, 6000, 150, 120, 4000)
+    run = framework.run_shards("c11", "run_shard", PID, seed, nshards, per, tier,
+                               extra={"nsolver": nsolver, "nchain": nchain, "napply": napply})
     run["findings"] = witnesses() + run["findings"]
 
     def search_more():
-        r = framework.run_shards("c11", "run_shard", PID, seed + 7919, 32, 600, tier, extra={"nsolver": 10})
+        r = framework.run_shards("c11", "run_shard", PID, seed + 7919, 32, 600, tier, extra={"nsolver": 10, "nchain": 10, "napply": 400})
         return r["findings"]
     rule = ("streams: det = the four real detectors on generated monitors (flat/drifting/tied/near-tolerance/jump/random columns, "
             "dyadic values so that ties with the tolerance are exact, tolerances at a column's change and one ulp either side, 0, "
@@ -1331,18 +1898,28 @@ def main(tier, seed):
             "sets of indices, pairs in both orientations, out-of-range and negative members / dict / set / 'where' in tuple and "
             "list flavours / rejected formats) compared on the returned members or the error enum; upd = mask.update_mask on "
             "And/Or/When trees; solver = DE, DE2, Nelder-Mead, Powell with Or(Collapse*, stop) on objectives with flat / zero / "
-            "tied directions. non-trivial = a detector case that reports at least one member, an update_mask case that changed a "
-            "mask, a solver run with at least one applied collapse")
+            "tied directions; apply = real collapse_as on histories realising a generated non-transitive pair graph (chains with "
+            "the shared parameter at every index position, stars, paths, trees, cliques, several components) followed by the real "
+            "impose_as(set, False) / tools.connected vs Model/CollapseApply.lean; chain = the four solvers on objectives with a "
+            "non-transitive chain of close optima, collapsed in one step (converge first) or across steps. non-trivial = a "
+            "detector case that reports at least one member, an update_mask case that changed a mask, a solver run with at least "
+            "one applied collapse, an apply case with at least two pairs, a chain run that applied a non-transitive chain")
     tb = ["Lean 4.33 kernel; axioms per theorem listed under coverage.theorems",
           "hand-written model Model/Collapse.lean tied to collapse.py / mask.py by this differential run only",
           "the generator builds every mask together with its model term (no classifier inspects the Python object)",
           "solver level (cost arguments after a collapse, final solution, state() masks, termination of Solve) is checked on the "
           "implementation by the monitor; the model side is the abstract collapse loop (Loop.run) replaying the real reports",
+          "hand-written model Model/CollapseApply.lean (tools.connected + tie phase of impose_as) tied to tools.py / constraints.py "
+          "by stream `apply` only; the offset loop of impose_as (offset False = 0) is not modelled",
+          "class keys of failing relations: the harness's transcription py_connected / predict_composed of the unchanged "
+          "composition (compared with the Lean model on every `apply` case) decides whether a failure is a recorded class",
           "collapse_cost / CollapseCost (bounds collapse) is not modelled"]
     assumptions = ["IEEE binary64 - and comparisons agree between Lean Float and numpy float64; numpy max/min/ptp reductions "
                    "propagate NaN (modelled)",
                    "detector results are compared as sets of members (row-major order of numpy.where is not compared)",
-                   "monitor histories are lists of equal-length rows of floats; array-valued tolerances only for collapse_at"]
+                   "monitor histories are lists of equal-length rows of floats; array-valued tolerances only for collapse_at",
+                   "stream apply: parameter values are finite and never -0.0 (x[i] += False would turn -0.0 into 0.0); the pairs "
+                   "are iterated in the order list(the_set) gives for the very set object handed to impose_as"]
     return framework.finish(PID, tier, seed, t0, proof, run, rule, tb, assumptions, search_more=search_more)
 
 
@@ -1360,7 +1937,7 @@ def replay(path):
         fs = witnesses()
     else:
         i = cs["id"]
-        r = run_shard(PID, i["seed"], i["shard"], 0, "quick", {"only": ["one", i["stream"], i["k"]]})
+        r = run_shard(PID, i["seed"], i["shard"], 0, i.get("tier", "quick"), {"only": ["one", i["stream"], i["k"]]})
         fs = r["findings"]
     known = {e["class_key"] for e in framework.load_known(PID)}
     rc = 0
